@@ -510,6 +510,13 @@ Section Reads.
     end.
 End Reads.
 
+(* the same read paths seen as "what the guarded block does", to be fed to get_chunk / get_chunk_or_* *)
+Definition lowres_of_decode (r : res (hdr * bytes)) (want : hdr) : lowres :=
+  match r with
+  | Err e => LRaise (exn_of_npyerr e)
+  | Ok (m, _) => let (sok, dok) := hdr_matches want m in LArray sok dok
+  end.
+
 (* ---------- loading through ChunkStoreVisFlagsWeights ---------- *)
 (* one cell of the data set: the chunk of each array covering it.  flags uses get_chunk_or_default(DATA_LOST),
    the others get_chunk_or_placeholder; any exception makes the dask compute (the load) fail. *)
@@ -582,17 +589,34 @@ Definition put_ops (base : name) (writes : list bytes) (trunc : option nat) : li
 Definition new_content (writes : list bytes) (trunc : option nat) : bytes :=
   match trunc with Some n => firstn n (List.concat writes) | None => List.concat writes end.
 
-(* what can happen to a put: it completes, the process dies after k operations (optionally in the middle of
-   the next write, of which only [part] reached the file), or operation k fails with low-level exception e
-   (again possibly after a partial write) *)
-Inductive fault := NoFault | Crash (k : nat) (part : bytes) | Fail (k : nat) (part : bytes) (e : exn).
+(* what can happen to a put: it completes; the process dies after k operations (optionally in the middle of
+   the next write, of which only [part] reached the file); operation k fails with low-level exception e (again
+   possibly after a partial write); or write k is SHORT: only [part] is written and the call returns normally *)
+Inductive fault := NoFault | Crash (k : nat) (part : bytes) | Fail (k : nat) (part : bytes) (e : exn)
+                 | Short (k : nat) (part : bytes).
 
-Definition partial_ops (base : name) (ops : list fsop) (k : nat) (part : bytes) : list fsop :=
+Definition partial_ops (ops : list fsop) (k : nat) (part : bytes) : list fsop :=
   firstn k ops ++
   match nth_error ops k, part with
   | Some (Write n _), _ :: _ => [Write n part]
   | _, _ => []
   end.
+
+(* two facts about _write_chunk translated from the source:
+   - the plain branch writes through np.save (ndarray.tofile ignores a failing final flush) or through a Python
+     file object (which raises);
+   - the direct branch compares the byte count returned by os.write with the chunk size before ftruncate. *)
+Definition flush_errors_reported : bool := negb (String.eqb c08_plain_writer "np.save").
+Definition short_write_checked : bool := c08_direct_short_write_checked.
+
+(* a failing write is swallowed: plain branch through np.save, and it is the last write before the rename *)
+Definition swallowed (ops : list fsop) (trunc : option nat) (k : nat) : bool :=
+  negb flush_errors_reported
+  && match trunc with None => true | Some _ => false end
+  && match nth_error ops k, nth_error ops (S k) with
+     | Some (Write _ _), Some (Rename _ _) => true
+     | _, _ => false
+     end.
 
 (* put_chunk: outcome for the caller (None = the caller never hears back: the process died) and the
    file system left behind.  [meta_ok] = chunk_metadata accepted the chunk (shape agrees with the slices, no
@@ -603,11 +627,25 @@ Definition put_chunk (base : name) (writes : list bytes) (trunc : option nat) (m
   let ops := put_ops base writes trunc in
   match flt with
   | NoFault => (Some (Ret tt), run_ops ops f)
-  | Crash k part => (None, run_ops (partial_ops base ops k part) f)
+  | Crash k part => (None, run_ops (partial_ops ops k part) f)
   | Fail k part e =>
       if Nat.ltb k (List.length ops)
-      then (Some (Raise (standard_errors (error_map SNpy) e)), run_ops (partial_ops base ops k part) f)
+      then if swallowed ops trunc k
+           then (Some (Ret tt), run_ops (partial_ops ops k part ++ skipn (S k) ops) f)
+           else (Some (Raise (standard_errors (error_map SNpy) e)), run_ops (partial_ops ops k part) f)
       else (Some (Ret tt), run_ops ops f)
+  | Short k part =>
+      match nth_error ops k, trunc with
+      | Some (Write n bs), Some size =>
+          (* direct branch: one os.write of the padded buffer *)
+          if Nat.ltb (List.length part) size then
+            if short_write_checked
+            then (Some (Raise (standard_errors (error_map SNpy) B_OSError)),
+                  run_ops (firstn k ops ++ [Write n part]) f)
+            else (Some (Ret tt), run_ops (firstn k ops ++ [Write n part] ++ skipn (S k) ops) f)
+          else (Some (Ret tt), run_ops (firstn k ops ++ [Write n part] ++ skipn (S k) ops) f)
+      | _, _ => (Some (Ret tt), run_ops ops f)   (* buffered writers retry the remainder *)
+      end
   end.
 
 (* put_chunk_noraise: Ret None = success reported, Ret (Some err) = error object returned, Raise = propagates *)
@@ -641,6 +679,7 @@ Definition to_fault (x : sx) : fault :=
   match x with
   | L [I 1; k; part] => Crash (to_nat k) (to_Zs part)
   | L [I 2; k; part; e] => Fail (to_nat k) (to_Zs part) (to_exn e)
+  | L [I 3; k; part] => Short (to_nat k) (to_Zs part)
   | _ => NoFault
   end.
 Definition of_fsop (op : fsop) : sx :=
@@ -661,7 +700,9 @@ Definition to_optnat (x : sx) : option nat := match x with L [I z] => Some (Z.to
    (7 store ((kind lowres) ...)) -> vfw_load: (0 flags lost) | (1 exn)
    (8 base writes trunc?)   -> put_ops as (kind name arg) ...
    (9 base writes trunc? meta_ok fault old?) -> put_chunk_noraise on a file system holding [old] under the final name:
-                               (report, final entry, tmp entry)  report: () died | (0) None | (1 e) returned | (2 e) raised *)
+                               (report, final entry, tmp entry)  report: () died | (0) None | (1 e) returned | (2 e) raised
+   (10 bytes want)          -> for every k in 0..|bytes|: the three getters of the NPY store and of the S3 store on
+                               the first k bytes *)
 Definition wire_81 (x : sx) : sx :=
   match x with
   | L [I 1] => L (map (fun e => L [of_string (exn_name e); L (map of_exn (bases e))]) all_exn)
@@ -697,5 +738,12 @@ Definition wire_81 (x : sx) : sx :=
          | Some (Raise e) => L [I 2; of_exn e]
          end;
          of_fs_entry (lookup (final_name b) f'); of_fs_entry (lookup (tmp_name b) f')]
+  | L [I 10; b; want] =>
+      let bs := to_Zs b in let w := to_hdr want in
+      let three st lo := L [of_outcome_cv (get_chunk st lo); of_outcome_cv (get_chunk_or_default st lo);
+                            of_outcome_cv (get_chunk_or_placeholder st lo)] in
+      L (map (fun k => L [three SNpy (lowres_of_decode (np_load parse_hdr_c (firstn k bs)) w);
+                          three SS3 (lowres_of_decode (s3_read_array parse_hdr_c (firstn k bs)) w)])
+             (seq 0 (S (List.length bs))))
   | _ => sx_err
   end.
